@@ -39,6 +39,9 @@ def tokenize(s):
         k = m.lastgroup
         if k == 'ws':
             continue
+        if k == 'str' and out and out[-1][0] == 'str':     # adjacent string literals concatenate
+            out[-1] = ('str', out[-1][1][:-1] + m.group(k)[1:])
+            continue
         out.append((k, m.group(k)))
     return out
 
